@@ -79,6 +79,8 @@ class ExprMixin:
             return v
         if v.ty.key == "EmptyList" and isinstance(ty, TList):
             return self.empty_of(ty)
+        if v.ty.key == "EmptyDict" and isinstance(ty, TDict):
+            return self.empty_of(ty)
         if v.ty == TInt and ty == TReal:
             return Val(TReal, z3.ToReal(v.t))
         if isinstance(ty, TOpt):
@@ -215,6 +217,9 @@ class ExprMixin:
             q = "%s.%s.%s" % (info["module"], info.get("source_class", ty.cls), attr)
             if q in S.REGISTRY:  # property
                 return self.call_contract(S.REGISTRY[q], [base], {}, node, st, pure_only=True)
+            h = self.attr_handlers.get((ty.key, attr))
+            if h:
+                return h(self, base, node, st)
             raise Unsupported("attribute %s of %s" % (attr, ty.cls), node)
         h = self.attr_handlers.get((ty.key, attr))
         if h:
@@ -414,6 +419,8 @@ class ExprMixin:
             return Val(a.ty, t)
         if isinstance(a.ty, TOpt) and isinstance(op, (ast.Add, ast.Sub)):
             return self.binop(op, self.coerce(a, a.ty.elem, node, "left operand"), b, node, st)
+        if isinstance(a.ty, TSet) and a.ty == b.ty and isinstance(op, ast.Sub):
+            return Val(a.ty, z3.SetDifference(a.t, b.t))
         if isinstance(a.ty, TList) and a.ty == b.ty and isinstance(op, ast.Add):
             return self.list_concat(a, b, st)
         if a.ty == TString and b.ty == TString and isinstance(op, ast.Add):
@@ -479,7 +486,7 @@ class ExprMixin:
     def e_Dict(self, node, st, hint=None):
         if not node.keys:
             if hint is None:
-                raise Unsupported("empty dict display without a type hint", node)
+                return Val(TU("EmptyDict"), None)  # typed by the slot it flows into
             return self.empty_of(hint)
         ks = [self.eval(k, st) for k in node.keys]
         vs = [self.eval(v, st) for v in node.values]
